@@ -56,15 +56,15 @@ def readMany (prf : Bytes → Bytes) : Reader → List Nat → List (Option Byte
     | none => none :: readMany prf f ks
     | some (f', out) => some out :: readMany prf f' ks
 
-/-- Reads with the caller overwriting its `info` slice in place just before Read number `at`:
+/-- Reads with the caller overwriting its `info` slice in place just before Read number `mutAt`:
     `hkdfReader` keeps the slice it was given (no copy), so blocks generated from then on use the new
     bytes — current behaviour of the code, outside RFC 5869 (which has one `info` per derivation). -/
-def readManyMut (prf : Bytes → Bytes) (f : Reader) (ks : List Nat) (at : Nat) (info' : Bytes) :
+def readManyMut (prf : Bytes → Bytes) (f : Reader) (ks : List Nat) (mutAt : Nat) (info' : Bytes) :
     List (Option Bytes) :=
   let rec go : Reader → List Nat → Nat → List (Option Bytes)
     | _, [], _ => []
     | f, k :: ks, idx =>
-      let f := if idx = at then { f with info := info' } else f
+      let f := if idx = mutAt then { f with info := info' } else f
       match f.read prf k with
       | none => none :: go f ks (idx + 1)
       | some (f', out) => some out :: go f' ks (idx + 1)
